@@ -315,6 +315,8 @@ pub struct Features {
     pub window_in_loop: bool,
     pub agg_in_loop: bool,
     pub join_in_loop: bool,
+    /// an `iterate` whose body is chained in the Iterate block (see gen::amplifying_body)
+    pub iterate_simple_body: bool,
 }
 
 pub fn features(job: &JobSpec) -> Features {
@@ -374,6 +376,7 @@ pub fn features(job: &JobSpec) -> Features {
                     walk(&l.body, depth + 1, f)
                 }
                 Stage::Iterate(l) => {
+                    f.iterate_simple_body |= !l.body.iter().any(|s| !matches!(s, Stage::Map(_) | Stage::Filter(_) | Stage::FilterMap(..) | Stage::FlatMap(_)));
                     f.has_loop = true;
                     f.has_iterate = true;
                     f.multi_sink = true;
